@@ -37,8 +37,16 @@ pub trait DataInput {
 
     /// Read a vector of bytes with the specified length
     fn read_vec(&mut self, len: usize) -> Result<Vec<u8>> {
-        let mut buf = vec![0u8; len];
-        self.read_bytes(&mut buf)?;
+        // `len` usually comes from the input itself (a length prefix). Grow in bounded steps so
+        // that a corrupt length hits end-of-data before it can force a huge allocation.
+        const CHUNK: usize = 64 * 1024;
+        let mut buf = Vec::with_capacity(len.min(CHUNK));
+        while buf.len() < len {
+            let start = buf.len();
+            let step = (len - start).min(CHUNK);
+            buf.resize(start + step, 0);
+            self.read_bytes(&mut buf[start..])?;
+        }
         Ok(buf)
     }
 
@@ -150,6 +158,16 @@ impl<'a> DataInput for SliceDataInput<'a> {
 
     fn read_var_int(&mut self) -> Result<u64> {
         VarInt::read_from(self)
+    }
+
+    fn read_vec(&mut self, len: usize) -> Result<Vec<u8>> {
+        // The whole input is in memory: validate the length before allocating
+        if len > self.remaining() {
+            return Err(ZiporaError::io_error("Unexpected end of data"));
+        }
+        let mut buf = vec![0u8; len];
+        self.read_bytes(&mut buf)?;
+        Ok(buf)
     }
 
     fn read_bytes(&mut self, buf: &mut [u8]) -> Result<()> {
